@@ -39,6 +39,7 @@ func writeEvidence(prop, tier string, seed int64, agg *summary, distinct int, wa
 		"distinct_capped":              agg.HashesCapped,
 		"rule":                         agg.Rule,
 		"samples":                      samples,
+		"exploration_bound":            budgetMode,
 		"runs_per_hour":                float64(agg.Runs) / wall * 3600,
 		"sim_seconds_total":            agg.SimSeconds,
 		"steps_total":                  agg.Steps,
